@@ -247,6 +247,15 @@ def frame1(ctx: Ctx, chk) -> None:
         for ch_ in ast.iter_child_nodes(par_):
             pmap[ch_] = par_
     reader_calls = [((read, _own(n_), nm_) if (f_.qualname in inl_names and _own(n_) is not None) else (f_, n_, nm_)) for f_, n_, nm_ in reader_calls]
+    # a private helper that reads from the stream for read() only, but whose body could not be written out into read()
+    # (returns in the middle of it ...): the single-consumer / returned-bytes arguments below are about one function
+    # body - no verdict
+    for f_, n_, nm_ in reader_calls:
+        if f_ is read or not (f_.name.startswith("_") and not f_.name.startswith("__")):
+            continue
+        callers = [g_ for g_ in prog.all_functions() if g_ is not f_ and any(isinstance(x, ast.Call) and isinstance(x.func, (ast.Name, ast.Attribute)) and (x.func.id if isinstance(x.func, ast.Name) else x.func.attr) == f_.name for x in ctx.own_nodes(g_))]
+        if callers and all(g_ is read or (g_.name.startswith("_") and g_.cls is read.cls) for g_ in callers):
+            raise AnalysisError(f"FRAME-1: {f_.qualname} reads from the stream on behalf of StreamTransport.read but its body could not be written out into read() ({ctx.loc(f_, n_)}): framing is not decided for this shape")
     cn_r = Canon(ctx.I, read_i, "")
     discards = []
     for f_, n_, nm_ in list(reader_calls):
@@ -264,6 +273,10 @@ def frame1(ctx: Ctx, chk) -> None:
         if isinstance(stmt, ast.Expr) and handler is not None and handler.type is not None and norm(handler.type).endswith("LimitOverrunError") and len(n_.args) == 1 and cn_r.canon(n_.args[0]) in (f"{handler.name}.consumed",):
             discards.append((n_, handler))
             reader_calls.remove((f_, n_, nm_))
+        elif isinstance(stmt, ast.Expr) and handler is not None and handler.name and len(n_.args) == 1 and cn_r.canon(n_.args[0]) == f"{handler.name}.consumed":
+            # the same resynchronisation step under a clause that is not spelled `except LimitOverrunError` (a table of
+            # exception classes, an isinstance test inside a wider clause): which exceptions reach it is not modelled
+            raise AnalysisError(f"FRAME-1: `{norm(n_)}` drops the scanned chunk inside `except {norm(handler.type) if handler.type is not None else ''}` ({ctx.loc(read_i, n_)}): this spelling of the over-long-line clause is not modelled")
     if discards:
         resync2(ctx, chk, read_i, discards)
     # --- single consumer, readuntil(TERMINATOR)
